@@ -15,6 +15,7 @@ import os
 import time
 from .. import core
 from . import _gen
+from . import _c12_disable      # extension O: queue loops while shepherds are disabled / re-enabled
 
 LEVEL = "proof"
 EXPLANATION = ("Coq theorems over Loops/Model.v (split, tree spawn, spawner, micro-step queue-loop cursors for every schedule) + "
@@ -414,6 +415,8 @@ def run(ctx):
         else:
             ctx.violation("broken", what, {"theorem_or_correspondence": ("impl != Loops.Model on " + mism[0][0]) if mism else pr["file"],
                                            "first_mismatch": mism[0] if mism else None, "coq_log": pr["log"][-1500:]}, no_input=True)
+    # extension O: queue loops with disable / enable / addworker events (event machine, Properties_C12_disable.v)
+    _c12_disable.run_disable(ctx, quick)
 
 
 def replay(ctx, path):
@@ -422,6 +425,8 @@ def replay(ctx, path):
     r = j.get("replay", {})
     case = r if "replay_cmds" in r else (r.get("failing_input") or (r.get("first_mismatch") or [None, None])[1])
     print("# %s: %s" % (j.get("signature"), j.get("what")))
+    if case and "qdis_script" in case:          # extension O scenario
+        return _c12_disable.replay(ctx, j, case)
     if not case or "replay_cmds" not in case:
         print("# no single input recorded (%s): running the whole check" % r.get("theorem_or_correspondence"))
         return run(ctx)
